@@ -1262,11 +1262,11 @@ class Compiler:
 
         # Find variables captured by inner functions
         captured = self._find_captured_vars(node.body, local_vars_set)
-        self._cell_vars = list(captured)
+        self._cell_vars = sorted(captured)  # fixed order, whatever the hash seed
 
         # Find all free variables needed
         required_free = self._find_required_free_vars(node.body, local_vars_set)
-        self._free_vars = list(required_free)
+        self._free_vars = sorted(required_free)
 
         if node.expression:
             # Expression body: compile expression and return it
@@ -1370,7 +1370,7 @@ class Compiler:
         local_vars_set = set(self.locals)
         self._collect_var_decls(body, local_vars_set)
         # Update locals list with collected vars
-        for var in local_vars_set:
+        for var in sorted(local_vars_set):  # a fixed order: slots must not follow the hash seed
             if var not in self.locals:
                 self.locals.append(var)
 
@@ -1380,11 +1380,11 @@ class Compiler:
 
         # Find variables captured by inner functions
         captured = self._find_captured_vars(body, local_vars_set)
-        self._cell_vars = list(captured)
+        self._cell_vars = sorted(captured)  # fixed order, whatever the hash seed
 
         # Find all free variables needed (including pass-through for nested functions)
         required_free = self._find_required_free_vars(body, local_vars_set)
-        self._free_vars = list(required_free)
+        self._free_vars = sorted(required_free)
 
         # Pop the outer scope we pushed
         self._outer_locals.pop()
